@@ -105,6 +105,31 @@ inductive Op where
       -- one call of iterator k of kind Producer / ProducerReverse / ProducerBlocking / ProducerReverseBlocking
   deriving Repr, DecidableEq
 
+/-- what an operation returns (rendered by `Res.str` exactly as harness/c06.go prints it) -/
+inductive Res where
+  | ok | closed | full | nocredit       -- nil / ErrQueueClosed / ErrQueueFull / ErrQueueNoCredit
+  | none                                -- a pop's `ok == false`
+  | ctx                                 -- the context's error
+  | eof                                 -- io.EOF of an iterator
+  | val (v : Int)                       -- an item
+  | num (n : Nat)                       -- Len
+  | bad                                 -- (a resume of an operation that cannot park: unreachable)
+  deriving Repr, DecidableEq
+
+def Res.str : Res → String
+  | .ok => "ok" | .closed => "closed" | .full => "full" | .nocredit => "nocredit" | .none => "none"
+  | .ctx => "ctx" | .eof => "eof" | .val v => toString v | .num n => toString n | .bad => "bad-resume"
+
+/-- how a segment ends, with the structured result -/
+inductive FinR where
+  | ret (r : Res)
+  | park (c : Nat)
+  deriving Repr, DecidableEq
+
+def FinR.out : FinR → SegEnd
+  | .ret r => .ret r.str
+  | .park c => .park c
+
 structure St where
   tracker : Tracker
   closed : Bool := false
@@ -114,6 +139,14 @@ structure St where
   nextId : Nat := 1                      -- 0 is the root sentinel
   cursors : List (Nat × Nat) := []       -- iterator key ↦ element it points at (0 = root; absent = nil)
   deriving Repr
+
+/-- outcome of a segment with the structured result; `SegR.out` is what `Conc` sees -/
+structure SegR where
+  st : St
+  sigs : List Sig := []
+  fin : FinR
+
+def SegR.out (o : SegR) : SegOut St := { st := o.st, sigs := o.sigs, fin := o.fin.out }
 
 /-- the element that follows `e` in `ids` (0 = the root when `e` is the last one); `none` when
     `e` is not in `ids` -/
@@ -139,12 +172,12 @@ def St.cursor (s : St) (k : Nat) : Nat := ((s.cursors.find? (fun p => p.1 == k))
 def St.setCursor (s : St) (k c : Nat) : St := { s with cursors := (k, c) :: s.cursors.filter (fun p => p.1 != k) }
 
 /-- `addAfter(value, root)` (front) / `addAfter(value, root.prev)` (back) -/
-def addEnd (s : St) (d : End) (v : Int) : St × String × List Sig :=
-  if s.closed then (s, "closed", [])
+def addEnd (s : St) (d : End) (v : Int) : St × Res × List Sig :=
+  if s.closed then (s, .closed, [])
   else
     match s.tracker.add with
-    | (_, .full) => (s, "full", [.broadcast 2])
-    | (_, .noCredit) => (s, "nocredit", [.broadcast 2])
+    | (_, .full) => (s, .full, [.broadcast 2])
+    | (_, .noCredit) => (s, .nocredit, [.broadcast 2])
     | (tr, .ok) =>
       let e := s.nextId
       let wasEmpty := s.q.isEmpty
@@ -153,7 +186,7 @@ def addEnd (s : St) (d : End) (v : Int) : St × String × List Sig :=
       let sg := match d with
         | .front => [Sig.signal 0] ++ (if wasEmpty then [Sig.signal 1] else []) ++ [Sig.signal 2]
         | .back => (if wasEmpty then [Sig.signal 0] else []) ++ [Sig.signal 1, Sig.signal 2]
-      ({ s with tracker := tr, q := q', vals := (e, v) :: s.vals, nextId := e + 1 }, "ok", sg)
+      ({ s with tracker := tr, q := q', vals := (e, v) :: s.vals, nextId := e + 1 }, .ok, sg)
 
 /-- `pop(root.next)` (front) / `pop(root.prev)` (back). The deferred calls run in reverse order of
     their `defer` statements: updates.Broadcast, then nback.Signal, then nfront.Signal. -/
@@ -177,7 +210,7 @@ def popEnd (s : St) (d : End) : St × Option Int × List Sig :=
          [Sig.broadcast 2, Sig.signal 1] ++ (if rest.isEmpty then [Sig.signal 0] else []))
 
 /-- `ForcePushFront` / `ForcePushBack` -/
-def forcePush (s : St) (d : End) (v : Int) : St × String × List Sig :=
+def forcePush (s : St) (d : End) (v : Int) : St × Res × List Sig :=
   if s.tracker.atCap then
     let (s1, _, sg1) := popEnd s d.opp
     let (s2, r, sg2) := addEnd s1 d v
@@ -186,25 +219,25 @@ def forcePush (s : St) (d : End) (v : Int) : St × String × List Sig :=
 
 /-- `waitPop`, from the test of the loop in `root.wait` onwards (`first` = the helper has just been
     spawned; the context cannot be done yet) -/
-def waitPopLoop (s : St) (d : End) (cancelled : Bool) (pre : List Sig) : SegOut St :=
+def waitPopLoop (s : St) (d : End) (cancelled : Bool) (pre : List Sig) : SegR :=
   if s.q.isEmpty then
     -- `for next == it.getNextOrPrevious(direction)`
-    if s.closed then { st := s, sigs := pre, fin := .ret "closed" }
-    else if cancelled then { st := s, sigs := pre ++ [.signal d.cond], fin := .ret "ctx" }
+    if s.closed then { st := s, sigs := pre, fin := .ret .closed }
+    else if cancelled then { st := s, sigs := pre ++ [.signal d.cond], fin := .ret .ctx }
     else { st := s, sigs := pre ++ [.signal d.cond], fin := .park d.cond }
   else if s.closed then
     -- wait returned nil, `pop` refuses on a closed deque, next round of `waitPop` sees `closed`
-    { st := s, sigs := pre, fin := .ret "closed" }
+    { st := s, sigs := pre, fin := .ret .closed }
   else
     match popEnd s d with
-    | (s', some v, sg) => { st := s', sigs := pre ++ sg, fin := .ret (toString v) }
-    | (s', none, sg) => { st := s', sigs := pre ++ sg, fin := .ret "closed" }
+    | (s', some v, sg) => { st := s', sigs := pre ++ sg, fin := .ret (.val v) }
+    | (s', none, sg) => { st := s', sigs := pre ++ sg, fin := .ret .closed }
 
 /-- `waitPushAfter` from the test of its `for` loop onwards -/
-def waitPushLoop (s : St) (d : End) (v : Int) (cancelled : Bool) (pre : List Sig) : SegOut St :=
+def waitPushLoop (s : St) (d : End) (v : Int) (cancelled : Bool) (pre : List Sig) : SegR :=
   if !s.tracker.hasRoom then
-    if s.closed then { st := s, sigs := pre, fin := .ret "closed" }
-    else if cancelled then { st := s, sigs := pre ++ [.signal 2], fin := .ret "ctx" }
+    if s.closed then { st := s, sigs := pre, fin := .ret .closed }
+    else if cancelled then { st := s, sigs := pre ++ [.signal 2], fin := .ret .ctx }
     else { st := s, sigs := pre ++ [.signal 2], fin := .park 2 }
   else
     let (s', r, sg) := addEnd s d v
@@ -215,10 +248,10 @@ def cursorKey (d : End) (blocking : Bool) (k : Nat) : Nat :=
 
 /-- the tail of `confProducer`'s closure: look at the neighbour, stop at the root, else advance
     (`current == nil ⇒ current = root` is the default 0 of `cursor`) -/
-def iterYield (s : St) (key : Nat) (d : End) (c : Nat) : SegOut St :=
+def iterYield (s : St) (key : Nat) (d : End) (c : Nat) : SegR :=
   let n := s.nbr d c
-  if n == 0 then { st := s, fin := .ret "eof" }
-  else { st := s.setCursor key n, fin := .ret (toString (s.valOf n)) }
+  if n == 0 then { st := s, fin := .ret .eof }
+  else { st := s.setCursor key n, fin := .ret (.val (s.valOf n)) }
 
 /-- the condition `element.wait` picks for an iterator standing on `c` whose link in direction `d`
     is the root: on the root itself (empty deque) the condition of that direction; on the last
@@ -226,23 +259,23 @@ def iterYield (s : St) (key : Nat) (d : End) (c : Nat) : SegOut St :=
 def iterCond (d : End) (c : Nat) : Nat := if c = 0 then d.cond else d.opp.cond
 
 /-- `current.wait(ctx, direction)` from the test of its loop onwards, then the tail of the closure -/
-def iterLoop (s : St) (key : Nat) (d : End) (cancelled : Bool) (pre : List Sig) : SegOut St :=
+def iterLoop (s : St) (key : Nat) (d : End) (cancelled : Bool) (pre : List Sig) : SegR :=
   let c := s.cursor key
   if s.nbr d c == 0 then
-    if s.closed then { st := s, sigs := pre, fin := .ret "closed" }
-    else if cancelled then { st := s, sigs := pre ++ [.signal (iterCond d c)], fin := .ret "ctx" }
+    if s.closed then { st := s, sigs := pre, fin := .ret .closed }
+    else if cancelled then { st := s, sigs := pre ++ [.signal (iterCond d c)], fin := .ret .ctx }
     else { st := s, sigs := pre ++ [.signal (iterCond d c)], fin := .park (iterCond d c) }
   else iterYield s key d c
 
-def start (s : St) (_t : Nat) : Op → SegOut St
+def startR (s : St) : Op → SegR
   | .push d v => let (s', r, sg) := addEnd s d v; { st := s', sigs := sg, fin := .ret r }
   | .fpush d v => let (s', r, sg) := forcePush s d v; { st := s', sigs := sg, fin := .ret r }
   | .pop d =>
     match popEnd s d with
-    | (s', some v, sg) => { st := s', sigs := sg, fin := .ret (toString v) }
-    | (s', none, sg) => { st := s', sigs := sg, fin := .ret "none" }
+    | (s', some v, sg) => { st := s', sigs := sg, fin := .ret (.val v) }
+    | (s', none, sg) => { st := s', sigs := sg, fin := .ret .none }
   | .wait d =>
-    if s.closed then { st := s, fin := .ret "closed" }
+    if s.closed then { st := s, fin := .ret .closed }
     else if s.q.isEmpty then waitPopLoop s d false [.spawn d.cond]
     else waitPopLoop s d false []
   | .wpush d v =>
@@ -252,20 +285,23 @@ def start (s : St) (_t : Nat) : Op → SegOut St
       let (s', r, sg) := addEnd s d v
       { st := s', sigs := sg ++ extra, fin := .ret r }
     else waitPushLoop s d v false [.spawn 2]
-  | .len => { st := s, fin := .ret (toString s.tracker.len) }
-  | .close => { st := { s with closed := true }, sigs := [.broadcast 0, .broadcast 1, .broadcast 2], fin := .ret "ok" }
+  | .len => { st := s, fin := .ret (.num s.tracker.len) }
+  | .close => { st := { s with closed := true }, sigs := [.broadcast 0, .broadcast 1, .broadcast 2], fin := .ret .ok }
   | .next d blocking k =>
     let key := cursorKey d blocking k
     let c := s.cursor key
     if s.nbr d c == 0 && blocking then iterLoop s key d false [.spawn (iterCond d c)]
     else iterYield s key d c
 
-def resume (s : St) (_t : Nat) (op : Op) (cancelled : Bool) : SegOut St :=
+def resumeR (s : St) (op : Op) (cancelled : Bool) : SegR :=
   match op with
   | .wait d => waitPopLoop s d cancelled []
   | .wpush d v => waitPushLoop s d v cancelled []
-  | .next d blocking k => iterLoop s (cursorKey d blocking k) d cancelled []
-  | _ => { st := s, fin := .ret "bad-resume" }
+  | .next d true k => iterLoop s (cursorKey d true k) d cancelled []
+  | _ => { st := s, fin := .ret .bad }      -- only the three kinds of operation above ever park
+
+def start (s : St) (_t : Nat) (op : Op) : SegOut St := (startR s op).out
+def resume (s : St) (_t : Nat) (op : Op) (cancelled : Bool) : SegOut St := (resumeR s op cancelled).out
 
 def itemsStr (s : St) : String := ",".intercalate (s.q.map (fun p => toString p.2))
 
